@@ -66,6 +66,9 @@ var vc04Routes = []vc04Route{
 	{16, "GET", "/"},
 	{17, "DELETE", "/internal/x"},
 	{18, "GET", "/METRICS/upper"},
+	{19, "GET", "/internal/w/*"},
+	{20, "DELETE", "/internal/vdr/v1/did/:did"},
+	{21, "POST", "/internal/w/*"},
 }
 
 type vc04Obs struct {
@@ -426,6 +429,32 @@ func vc04BasePathsOf(r *rand.Rand, routes []vc04Route) []string {
 	return res
 }
 
+// encoded-slash traversal INSIDE the last path parameter / wildcard of a route: echo dispatches on the escaped path
+// (`x%2F..%2F..` is ONE segment), a guard that decodes and cleans the path would see it climb out of /internal
+func vc04Traversal(r *rand.Rand) string {
+	prefix := []string{"/internal/x/", "/internal/w/", "/internal/vdr/v1/did/", "/internal/deep/", "/internal/p/", "/internal/x/a/",
+		"/status/sub/", "/public/"}[r.Intn(8)]
+	slash := []string{"%2F", "%2f", "%2F", "/"}
+	dots := []string{"..", "%2E%2E", "%2e%2e", "%2E.", ".%2e", "%2e%2E", "."}
+	var sb strings.Builder
+	sb.WriteString(prefix)
+	sb.WriteString([]string{"x", "did:nuts:abc", "", "a", ".."}[r.Intn(5)])
+	n := 1 + r.Intn(8)
+	for i := 0; i < n; i++ {
+		sb.WriteString(slash[r.Intn(len(slash))])
+		sb.WriteString(dots[r.Intn(len(dots))])
+	}
+	switch r.Intn(6) {
+	case 0:
+		sb.WriteString("%2Fpublic")
+	case 1:
+		sb.WriteString("%2F")
+	case 2:
+		sb.WriteString("/sub")
+	}
+	return sb.String()
+}
+
 func vc04Query(r *rand.Rand) string {
 	switch r.Intn(8) {
 	case 0:
@@ -446,7 +475,9 @@ func vc04Query(r *rand.Rand) string {
 
 func vc04Target(r *rand.Rand, method string, bases []string) []byte {
 	p := bases[r.Intn(len(bases))]
-	if r.Intn(2) == 0 {
+	if r.Intn(8) == 0 {
+		p = vc04Traversal(r)
+	} else if r.Intn(2) == 0 {
 		p = vc04MutatePath(r, p)
 	}
 	p += vc04Query(r)
@@ -668,7 +699,7 @@ func TestVerifC04(t *testing.T) {
 		}
 	}
 
-	methods := []string{"GET", "GET", "GET", "GET", "GET", "POST", "CONNECT", "OPTIONS", "DELETE", "HEAD"}
+	methods := []string{"GET", "GET", "GET", "GET", "GET", "POST", "CONNECT", "OPTIONS", "DELETE", "DELETE", "HEAD"}
 	engNames := []string{"A", "A", "A", "B", "B", "C", "D", "D", "D"}
 	for i := 0; i < nReq; i++ {
 		m := methods[r.Intn(len(methods))]
